@@ -1,13 +1,14 @@
 import PsVerif.Proofs.MkCert
 import PsVerif.Model.Admit
+import PsVerif.Model.PeerSync
 /-
 C26  Peers that forced a CSV refund are quarantined.
 
 Model: `suspicious` flag of Model/AbsMk.lean (set by AddSuspiciousPeerAction, the first action of the
-generated State_ClaimedCsv rows) and the admission model (Model/Admit.lean).  The peer-sync clauses
-(request_poll from the peer is not answered, its poll is not stored, it is not polled) and the refusal
-of local initiations are checked by the monitor on the real peersync handler/poller and SwapService
-with the REAL policy file.
+generated State_ClaimedCsv rows), the admission model (Model/Admit.lean) and the peer-sync model
+(Model/PeerSync.lean, tied by slice `peersync`): a suspicious peer's request_poll is not answered and
+its poll is not stored whatever the payload, and no poll round sends to it.  The refusal of local
+initiations is checked by the monitor on the real SwapService with the REAL policy file.
 -/
 namespace PsVerif.Props.C26
 open PsVerif.Gen PsVerif.Model PsVerif.Model.Abs PsVerif.Model.AbsMk PsVerif.Proofs.MkCert
@@ -39,5 +40,70 @@ theorem C26_blocks_requests (c : NodeCfg) (r : Request) (h : c.suspicious = true
     exfalso
     have := List.find?_eq_none.mp hf (c.suspicious, "suspicious") (by simp [refusals])
     simp [h] at this
+
+/-- peer-sync neither answers a suspicious peer nor stores anything from it, for every message type and
+    every payload (well-formed or not) -/
+theorem C26_peersync_silent (s : PeerSync.St) (t : PeerSync.MsgType) (src : String) (payload : Option PeerSync.Cap)
+    (hs : s.suspicious.contains src = true) : PeerSync.recv s t src payload = (s, []) := by
+  have hs' : src ∈ s.suspicious := by simpa using hs
+  cases t <;> cases payload <;> simp [PeerSync.recv, PeerSync.storeCap, hs']
+
+theorem pollKnown_skips_suspicious (cfg : PeerSync.Cfg) (s : PeerSync.St) (force : Bool) (fails : List String) (k : String)
+    (hs : s.suspicious.contains k = true) (ty : PeerSync.MsgType) :
+    ∀ ps : List (String × PeerSync.PeerRec), (k, ty) ∉ (PeerSync.pollKnown cfg s force fails ps).2
+  | [] => by simp [PeerSync.pollKnown]
+  | (k0, r0) :: rest => by
+    have ih := pollKnown_skips_suspicious cfg s force fails k hs ty rest
+    unfold PeerSync.pollKnown
+    simp only
+    split
+    · exact ih
+    · split
+      · exact ih
+      · split
+        · exact ih
+        · rename_i _ h2 _
+          intro hmem
+          rcases List.mem_cons.mp hmem with h | h
+          · injection h with h1 _
+            subst h1
+            exact h2 hs
+          · exact ih h
+
+theorem requestUnknown_skips_suspicious (cfg : PeerSync.Cfg) (now : Nat) (force : Bool) (known susp fails : List String)
+    (k : String) (hs : susp.contains k = true) (ty : PeerSync.MsgType) :
+    ∀ (conn : List String) (lr : List (String × Nat)), (k, ty) ∉ (PeerSync.requestUnknown cfg now force known susp fails lr conn).2
+  | [], lr => by simp [PeerSync.requestUnknown]
+  | k0 :: rest, lr => by
+    unfold PeerSync.requestUnknown
+    split
+    · exact requestUnknown_skips_suspicious cfg now force known susp fails k hs ty rest lr
+    · rename_i h1
+      split
+      · simp only
+        intro hmem
+        rcases List.mem_append.mp hmem with h | h
+        · split at h
+          · cases h
+          · simp at h
+            have : k0 = k := h.1.symm
+            subst this
+            have hs' : k0 ∈ susp := by simpa using hs
+            simp [hs'] at h1
+        · exact requestUnknown_skips_suspicious cfg now force known susp fails k hs ty rest _ h
+      · exact requestUnknown_skips_suspicious cfg now force known susp fails k hs ty rest lr
+
+/-- no poll round, forced or not, sends anything to a suspicious peer -/
+theorem C26_peersync_never_polls (cfg : PeerSync.Cfg) (s : PeerSync.St) (force : Bool) (fails : List String) (lf : Bool)
+    (k : String) (hs : s.suspicious.contains k = true) (ty : PeerSync.MsgType) :
+    (k, ty) ∉ (PeerSync.round cfg s force fails lf).2 := by
+  unfold PeerSync.round
+  simp only
+  split
+  · exact pollKnown_skips_suspicious cfg s force fails k hs ty _
+  · intro h
+    rcases List.mem_append.mp h with h | h
+    · exact pollKnown_skips_suspicious cfg s force fails k hs ty _ h
+    · exact requestUnknown_skips_suspicious cfg s.now force _ s.suspicious fails k hs ty _ _ h
 
 end PsVerif.Props.C26
